@@ -33,6 +33,8 @@ structure WCfg where
   /-- `timeoutRevision`; 0 disables expiry -/
   timeout : Nat := 0
   supportTTL : Bool := true
+  /-- `workerConfig.eventsPrefix`: the directory whose keys expire -/
+  eventsPfx : Bytes := []
   deriving Repr
 
 inductive Act where
@@ -52,7 +54,12 @@ structure Prev where
   deriving Repr, DecidableEq
 
 def isTomb (v : Bytes) : Bool := v == tombstone
-def isEventKey (k : Bytes) : Bool := containsSub k scannerEventsPattern
+/-- The event-key test of `compactIfExpired`, as the source has it now (regenerated fact
+`Generated.eventsMatchScanner`): anchored at the configured events directory, or — the pre-fix
+code — any key that merely contains the pattern. -/
+def isEventKey (c : WCfg) (k : Bytes) : Bool :=
+  if eventsMatchScanner == "HasPrefix:eventsPrefix" then c.eventsPfx.length > 0 && hasPrefix k c.eventsPfx
+  else containsSub k eventsPattern
 
 /-- The emission rule shared by the key-change branch and the EOF branch. -/
 def emitPrev (p : Prev) : List Act :=
@@ -61,7 +68,7 @@ def emitPrev (p : Prev) : List Act :=
 /-- `compactIfExpired`: `some acts` = expired (the worker `continue`s), `none` = not expired. -/
 def expireStep (c : WCfg) (r : Rec) : Option (List Act) :=
   if c.supportTTL || c.timeout == 0 then none
-  else if isEventKey r.key then
+  else if isEventKey c r.key then
     if r.rev == 0 then
       if r.val.length < 8 then some [.panic]
       else if fromBE (r.val.take 8) ≤ c.timeout then some [.delcur r.ik r.val r.key] else none
